@@ -19,7 +19,7 @@ RULE = ("(v1) conjunctive-normal-form formulas: 1..3 argument groups x 1..3 comm
         "as configuration setting); all formulas with <= 2 literals over 4 tags x 12 decorations are enumerated, larger ones "
         "are random. Oracle: AND of groups, OR inside a group, prefix negates, over ALL 128 subsets of a 7-tag universe that "
         "contains tags with 'or' / 'and' / 'not' as substrings. (v2) the C07 trees and renderings over this universe under "
-        "auto_detect must have their Boolean-formula meaning. (mixed) a v2 text (>= 1 and/or/not word) in which >= 1 "
+        "auto_detect (explicit, current, or --tags options of a Configuration) must have their Boolean-formula meaning. (mixed) a v2 text (>= 1 and/or/not word) in which >= 1 "
         "operand carries the v1 negation prefix must raise TagExpressionError under auto_detect. Non-trivial = >= 2 groups "
         "or a negation (v1), >= 2 operators or a wildcard (v2), every mixed text.")
 ASSUMPTIONS = [
@@ -125,7 +125,7 @@ def valid_case(case):
             return (valid_v1(case["groups"]) and case["form"] in FORMS and case["protocol"] in PROTOCOLS
                     and case["how"] in HOWS)
         if kind == "v2":
-            return c07.valid_ast(case["ast"]) and case["form"] in ("text", "list") and case["how"] in HOWS[:2]
+            return c07.valid_ast(case["ast"]) and case["form"] in ("text", "list") and case["how"] in HOWS
         if kind == "mixed":
             return c07.valid_ast(case["ast"]) and _is_mixed(c07.render(case["ast"], case["v"], case["form"]))
     except (KeyError, TypeError, IndexError):
@@ -261,7 +261,8 @@ def check_v2(case):
         res.label("v2-auto:keyword-substring-tag")
     want = U.expected(ast)
     try:
-        expr = build(arg, "auto", how)
+        # -- a real command line: every term (or the whole text) is one --tags option
+        expr = build(arg if (how != "config" or isinstance(arg, list)) else [arg], "auto", how)
     except TagExpressionError as e:
         res.fail("C08.auto-detect.v2-text.rejected", "new-style %r is rejected under auto_detect: %s"
                  % (arg, _one_line(e)), text=arg)
@@ -361,13 +362,13 @@ def v2_enum(max_nodes):
         for case in c07.expr_cases([ast], text_variants=[0, 1, 8, 21], list_variants=[0, 5]):
             index += 1
             yield {"kind": "v2", "ast": ast, "v": case["v"], "form": case["form"],
-                   "how": "current" if index % 4 == 0 else "explicit"}
+                   "how": "current" if index % 4 == 0 else ("config" if index % 9 == 0 else "explicit")}
 
 
 def v2_case_st():
     return st.builds(lambda a, v, f, h: {"kind": "v2", "ast": a, "v": v, "form": f, "how": h},
                      c07.ast_st(V2_OPERANDS, max_leaves=6), c07.VARIANT_ST, st.sampled_from(["text", "text", "list"]),
-                     st.sampled_from(["explicit", "current"]))
+                     st.sampled_from(["explicit", "explicit", "current", "current", "config"]))
 
 
 def _has_prefixed(ast):
